@@ -89,6 +89,10 @@ pub enum Op {
     /// the same with `init_lazy`: if the damaged blob was the only one, the storage starts with
     /// neither an active nor a closed blob
     DamageRstLazy,
+    /// the storage is dropped without `close` (what a kill leaves inside one process: nothing
+    /// dumped, nothing synced beyond what the background sync did), then build + init
+    KillRst,
+    KillRstLazy,
 }
 
 impl Op {
@@ -454,6 +458,15 @@ impl<K: HKey> World<K> {
                     return Outcome::Res(Res::Err, format!("close: {e:#}"));
                 }
                 res(self.init(op == Op::RstLazy).await)
+            }
+            Op::KillRst | Op::KillRstLazy => {
+                drop(self.storage.take());
+                // the worker ends when its channel closes; files are released with it
+                crate::ctl::quiesce().await;
+                if self.snapshot_restarts {
+                    self.restart_snapshot = Some(crate::tap::snapshot_blobs(&self.dir));
+                }
+                res(self.init(op == Op::KillRstLazy).await)
             }
             Op::DamageRst | Op::DamageRstLazy => {
                 if let Err(e) = self.close().await {
